@@ -110,7 +110,8 @@ fn or(r: &AggregateResult) -> Result<Option<f64>, String> {
 /// Aggregator::aggregate(window) and Aggregator::aggregate_events(slice): Count / Sum / Average / Min / Max of field "v"
 fn c12_aggregator_search() -> (bool, String) {
     let dom = domain();
-    let seqs = all_seqs(dom.len(), 4);
+    let maxlen = crate::bound(4, 7);
+    let seqs = all_seqs(dom.len(), maxlen);
     let f = || "v".to_string();
     for s in &seqs {
         let vals: Vec<Option<Value>> = s.iter().map(|&k| dom[k].clone()).collect();
@@ -145,7 +146,7 @@ fn c12_aggregator_search() -> (bool, String) {
             }
         }
     }
-    (false, format!("{} windows of <= 4 events x (Count, Sum, Average, Min, Max)", seqs.len()))
+    (false, format!("{} windows of <= {} events x (Count, Sum, Average, Min, Max)", seqs.len(), maxlen))
 }
 
 fn five(vals: &[Option<Value>], evs: &[StreamEvent]) -> Result<(), String> {
@@ -170,7 +171,8 @@ fn five(vals: &[Option<Value>], evs: &[StreamEvent]) -> Result<(), String> {
 /// the operators.rs Aggregation impls on a slice, and WindowedStream::{aggregate, counts} per tumbling window
 fn c12_stream_aggregations_search() -> (bool, String) {
     let dom = domain();
-    let seqs = all_seqs(dom.len(), 4);
+    let maxlen = crate::bound(4, 7); // (the timestamps below need <= 10 events)
+    let seqs = all_seqs(dom.len(), maxlen);
     let mut tried = 0u64;
     for s in &seqs {
         let vals: Vec<Option<Value>> = s.iter().map(|&k| dom[k].clone()).collect();
@@ -223,7 +225,7 @@ fn c12_stream_aggregations_search() -> (bool, String) {
             }
         }
     }
-    (false, format!("{} event lists of <= 4 events x (Count, Sum, Average, Min, Max), on a slice and per tumbling window", tried))
+    (false, format!("{} event lists of <= {} events x (Count, Sum, Average, Min, Max), on a slice and per tumbling window", tried, maxlen))
 }
 
 /// WindowedStream::aggregate takes the aggregator by value and is generic: one object-safe adapter per aggregator
